@@ -11,7 +11,11 @@ THEOREMS = ['C01_remote_rcpt_needs_relay', 'C01_submission_needs_entitlement', '
             'C01t_connection', 'C01t_checker_sound']
 TLSVERIFY = dict(name='tlsverify', c_sources=['tlsverify_h.c'], extract='Extract/Extract_tlsverify.v', driver='tlsverify_driver.ml',
                  glue=('glue.ml', 'glue_z.ml'), accepts=lambda c: c.startswith('7c '), shrink_from=2)
-ENGINES = [ENGINE, TLSVERIFY]
+# the whole-program TLS engine of C17 (harness/tlssession/runner.py: the real Qsmtpd, python ssl client, TLS 1.3): the certificate
+# stage of is_authenticated() in the real binary, as far as the OpenSSL of this image lets it run (see reports/session-certificate.md)
+TLSSESSION = dict(name='tlssession', runner='tlssession/runner.py', extract='Extract/Extract_tlssession.v', driver='tls_driver.ml',
+                  glue=('glue.ml', 'glue_z.ml'), accepts=lambda c: c.startswith('7e '))
+ENGINES = [ENGINE, TLSVERIFY, TLSSESSION]
 RULE = ('sessions aimed at the relay decision: relayclients / relayclients6 absent, listing the client, listing another network, with a size that is not a '
         'multiple of the record size, with an invalid prefix length, unreadable; IPv4-mapped and IPv6 clients; remote recipients before and after local ones, '
         'repeated after an error, across RSET and several transactions; AUTH PLAIN attempts (right and wrong password, malformed, unknown mechanism, backend crash, '
@@ -190,6 +194,10 @@ def _tv_has_nul(case):
 
 
 def nontrivial(case, c_out):
+    if case.startswith('7e '):
+        # the certificate stage was reached inside TLS: a remote recipient (or MAIL on 587) was answered there
+        toks = c_out.split()
+        return 'S' in toks and any(t in ('t551', 't454', 't550') for t in toks)
     if case.startswith('7c '):
         # the certificate was looked at (letter P) in a sequence of at least two calls, or a call succeeded by certificate
         return ('P' in c_out and len(c_out.split()) > 1) or 'PD' in c_out
@@ -197,7 +205,11 @@ def nontrivial(case, c_out):
 
 
 def distribution(results):
-    d = _session_distribution([r for r in results if not r['case'].startswith('7c ')])
+    d = _session_distribution([r for r in results if r['case'].startswith('5e ')])
+    te = [r for r in results if r['case'].startswith('7e ')]
+    d['tls_cert_cases'] = len(te)
+    d['tls_cert_cases_454_then_550'] = sum(1 for r in te if 't454 t550' in r['c'])
+    d['tls_cert_cases_refused_in_tls'] = sum(1 for r in te if 't551' in r['c'].split())
     tv = [r for r in results if r['case'].startswith('7c ')]
     d['tlsverify_cases'] = len(tv)
     calls = [t for r in tv for t in r['c'].split()]
@@ -211,9 +223,39 @@ def distribution(results):
     return d
 
 
+def tls_cert_case(rng):
+    """a session that reaches is_authenticated() inside TLS with control/tlsclients / control/clientca.pem present or not, a client that
+    offers post-handshake authentication or not and has the listed certificate or none; before the switch the relay decision may already
+    be cached (relayclient = 2), AUTH may entitle first (then tls_verify() is never asked), the port may be 587 (the stage runs in MAIL FROM)"""
+    def it(k, d=b''): return (k.encode() + d).hex()
+    cfg = ['cert=good', 'relay=' + rng.choice(['none', 'none', 'unlisted', 'listed', 'badsize']), 'ip=' + rng.choice(['v4', 'v4', 'v6']), 'databytes=0', 'qq=ok,ok,ok',
+           'tlsclients=' + rng.choice(['1', '1', '1', '0']), 'clientca=' + rng.choice(['1', '1', '1', '0']), 'pha=' + rng.choice(['1', '1', '0']),
+           'ccert=' + rng.choice(['listed', 'listed', 'none']), 'auth=' + rng.choice(['0', '0', '1']), 'port=' + rng.choice(['25', '25', '25', '587'])]
+    items = [it('S', b'EHLO c.example.net\r\n')]
+    if rng.random() < 0.4:
+        # in clear text first: the relay list is looked up and the answer cached; tls_verify() has no TLS session to ask
+        items += [it('S', session_gen.mail(rng, 'ok')), it('S', session_gen.rcpt(rng, 'remote'))]
+        if rng.random() < 0.5: items.append(it('S', b'RSET\r\n'))
+    items += [it('S', b'STARTTLS\r\n'), it('H'), it('S', b'EHLO c.example.net\r\n')]
+    if 'auth=1' in cfg and rng.random() < 0.5:
+        items.append(it('S', session_gen.auth_line(rng, rng.choice(['good', 'wrongpw']))))
+    for _ in range(rng.choice([1, 2])):
+        items.append(it('S', session_gen.mail(rng, rng.choice(['ok', 'ok', 'bounce']))))
+        for _ in range(rng.choice([1, 2, 3])):
+            items.append(it('S', session_gen.rcpt(rng, rng.choice(['remote', 'remote', 'ok', 'rbad']))))
+        if rng.random() < 0.6:
+            items += [it('S', b'DATA\r\n'), it('S', b'Subject: t\r\n\r\nbody\r\n.\r\n')]
+        else:
+            items.append(it('S', b'RSET\r\n'))
+    if rng.random() < 0.3: items.append(it('S', b'QUIT\r\n'))
+    return '7e ' + R.hx(';'.join(cfg)) + ' ' + ' '.join(items)
+
+
 def gen_cases(engine, rng, tier):
     if engine == 'tlsverify':
         return [tv_case(rng) for _ in range(4000 if tier == 'quick' else 150000)]
+    if engine == 'tlssession':
+        return [tls_cert_case(rng) for _ in range(150 if tier == 'quick' else 3000)]
     n = 300 if tier == 'quick' else 6000
     out = []
     for _ in range(n // 2):
